@@ -34,9 +34,9 @@ size_t UG, UG2;
 
 /* shape of the object (no statement about contents) */
 #define UF_SHAPE                                                                                     \
-    (uf_cap >= 1 && uf_cap <= FSL_BASIN_NMAX && __CPROVER_is_fresh(uf_parent, uf_cap * 8)             \
-     && __CPROVER_is_fresh(uf_rank, uf_cap * 8) && __CPROVER_is_fresh(UF_ROOTA, uf_cap * 8)           \
-     && __CPROVER_is_fresh(UF_DEPTHA, uf_cap * 8) && uf_pn <= uf_cap && uf_rn == uf_pn)
+    (uf_cap >= 1 && uf_cap <= FSL_BASIN_NMAX && __CPROVER_is_fresh(uf_parent, uf_cap * sizeof(size_t))             \
+     && __CPROVER_is_fresh(uf_rank, uf_cap * sizeof(size_t)) && __CPROVER_is_fresh(UF_ROOTA, uf_cap * sizeof(size_t))           \
+     && __CPROVER_is_fresh(UF_DEPTHA, uf_cap * sizeof(size_t)) && uf_pn <= uf_cap && uf_rn == uf_pn)
 
 /* representation invariant at element i (i < n is the caller's business), in two parts.
  * UF_CHAIN(i): the parent stays inside the universe and in the same class; i is a fixed point of parent exactly
@@ -104,7 +104,7 @@ struct fsl_edge
     double pass_elevation;
     double pass_length;
 };
-#define FSL_EDGE_BYTES 48
+#define FSL_EDGE_BYTES sizeof(struct fsl_edge) /* `count * sizeof(T)` makes is_fresh allocate a TYPED array (a byte array makes every element read a byte_extract: 10-100x slower) */
 
 /* lengths / ghost capacities of the member vectors (globals: modified by resize / clear / push_back) */
 size_t m_edges_n, m_edges_cap;
